@@ -195,7 +195,7 @@ def run_case(recipe):
     L = G.Lang(recipe["lang"])
     mrec = recipe["model"]
     mv = G.ModelView(L, mrec)
-    real = G.Real(L, mrec, nav_budget=NAV_BUDGET[min(4, max(1, mv.n))])
+    real = G.Real(L, mrec, nav_budget=NAV_BUDGET[min(4, max(1, mv.n))], mv=mv)
     r = CaseResult()
     seen = set()
     if real.build_error is not None:
